@@ -8,6 +8,7 @@
  */
 #include "vf_common.h"
 #include "vf_shim.h"
+#include "json_object_iterator.h"
 #include <locale.h>
 #include <signal.h>
 #include <sys/mman.h>
@@ -350,6 +351,238 @@ static void cmd_pb(int nt, char **t)
 	ob_puts(&out, "! PB op");
 }
 
+
+/* ---------------- object model (C05, C06, C07, C09, C11) ----------------
+ * Nodes may carry a uid: json_object_set_userdata(node, (void*)uid, del_cb); the delete callback appends the uid to
+ * the destruction log, which every mutating command prints as del=<uid,...>.  Handles are plain pointers; the SCRIPT
+ * (i.e. the Python ownership model) knows which handles own a reference.
+ */
+static long uid_of(struct json_object *o) { return o ? (long)(intptr_t)json_object_get_userdata(o) : -1; }
+static void set_uid(struct json_object *o, const char *t) { if (o && t) json_object_set_userdata(o, (void *)(intptr_t)L(t), del_cb); }
+
+/* NEW <h> <uid|-> <kind> [arg] */
+static void cmd_new(int nt, char **t)
+{
+	int h = hidx(t[1]); const char *k = t[3]; struct json_object *o = NULL; int isnull = 0;
+	if (nt < 4) { ob_puts(&out, "! NEW args"); return; }
+	if (!strcmp(k, "obj")) o = json_object_new_object();
+	else if (!strcmp(k, "arr")) o = json_object_new_array();
+	else if (!strcmp(k, "arrx")) o = json_object_new_array_ext((int)L(t[4]));
+	else if (!strcmp(k, "int")) o = json_object_new_int64((int64_t)LL(t[4]));
+	else if (!strcmp(k, "i32")) o = json_object_new_int((int32_t)LL(t[4]));
+	else if (!strcmp(k, "uint")) o = json_object_new_uint64((uint64_t)UL(t[4]));
+	else if (!strcmp(k, "dbl")) { uint64_t b = strtoull(t[4], NULL, 16); double d; memcpy(&d, &b, 8); o = json_object_new_double(d); }
+	else if (!strcmp(k, "dbls")) { uint64_t b = strtoull(t[4], NULL, 16); double d; size_t n; unsigned char *x = unhex(t[5], &n); memcpy(&d, &b, 8); o = json_object_new_double_s(d, (char *)x); free(x); }
+	else if (!strcmp(k, "str")) { size_t n; unsigned char *x = unhex(nt > 4 ? t[4] : "x", &n); char *e = exact_copy(x, n); o = json_object_new_string_len(e, (int)n); free(e); free(x); }
+	else if (!strcmp(k, "strz")) { size_t n; unsigned char *x = unhex(nt > 4 ? t[4] : "x", &n); o = json_object_new_string((char *)x); free(x); }
+	else if (!strcmp(k, "bool")) o = json_object_new_boolean((json_bool)L(t[4]));
+	else if (!strcmp(k, "null")) { o = json_object_new_null(); isnull = 1; }
+	else { ob_puts(&out, "! NEW kind"); return; }
+	if (o && t[2][0] != '-') set_uid(o, t[2]);
+	H[h] = o; Hset[h] = 1;
+	ob_puts(&out, (o || isnull) ? "= ok" : "= null");
+}
+
+/* UD <h> <uid>     set_userdata (the previous delete callback must fire now) */
+static void cmd_ud(int nt, char **t) { int h = hidx(t[1]); (void)nt; json_object_set_userdata(H[h], (void *)(intptr_t)L(t[2]), del_cb); ob_puts(&out, "= ok"); emit_dlog(); }
+static int ser_fn(struct json_object *o, struct printbuf *pb, int level, int flags) { (void)o; (void)level; (void)flags; return printbuf_memappend(pb, "\"custom\"", 8); }
+/* SS <h> <uid> <custom 0|1>   set_serializer */
+static void cmd_ss(int nt, char **t) { int h = hidx(t[1]); (void)nt; json_object_set_serializer(H[h], L(t[3]) ? ser_fn : NULL, (void *)(intptr_t)L(t[2]), L(t[2]) ? del_cb : NULL); ob_puts(&out, "= ok"); emit_dlog(); }
+
+/* GET <h> <h2> */
+static void cmd_get(int nt, char **t) { int h = hidx(t[1]), h2 = hidx(t[2]); (void)nt; H[h2] = json_object_get(H[h]); Hset[h2] = 1; ob_puts(&out, "= ok"); }
+/* ALIAS <h> <h2>   copy the pointer without taking a reference */
+static void cmd_alias(int nt, char **t) { int h = hidx(t[1]), h2 = hidx(t[2]); (void)nt; H[h2] = H[h]; Hset[h2] = 1; ob_puts(&out, "= ok"); }
+
+static char *keyarg(const char *t) { size_t n; return (char *)unhex(t, &n); }
+
+/* OADD <hobj> <key> <hval> <opts>  -> = <ret> del=.. */
+#define NCONST 64
+static char *constkeys[NCONST]; static int nconst;
+static void cmd_oadd(int nt, char **t)
+{
+	int ho = hidx(t[1]), hv = hidx(t[3]); unsigned opts = nt > 4 ? (unsigned)L(t[4]) : 0; char *k = keyarg(t[2]); int r;
+	if (opts & JSON_C_OBJECT_ADD_CONSTANT_KEY) {
+		/* immortal keys: interned for the life of the process */
+		int i; for (i = 0; i < nconst; i++) if (!strcmp(constkeys[i], k)) break;
+		if (i == nconst && nconst < NCONST) constkeys[nconst++] = strdup(k);
+		if (i < nconst) { free(k); k = NULL; r = json_object_object_add_ex(H[ho], constkeys[i], H[hv], opts); }
+		else r = json_object_object_add_ex(H[ho], k, H[hv], opts & ~JSON_C_OBJECT_ADD_CONSTANT_KEY);
+	} else if (opts == 0 && (L(t[1]) & 1)) r = json_object_object_add(H[ho], k, H[hv]);
+	else r = json_object_object_add_ex(H[ho], k, H[hv], opts);
+	free(k);
+	ob_printf(&out, "= %d", r); emit_dlog();
+}
+static void cmd_odel(int nt, char **t) { int ho = hidx(t[1]); char *k = keyarg(t[2]); (void)nt; json_object_object_del(H[ho], k); free(k); ob_puts(&out, "= ok"); emit_dlog(); }
+/* OGET <hobj> <key> [hdst]  -> = <found> <uid> <ptr==NULL> */
+static void cmd_oget(int nt, char **t)
+{
+	int ho = hidx(t[1]); char *k = keyarg(t[2]); struct json_object *v = (struct json_object *)0x1; json_bool f = json_object_object_get_ex(H[ho], k, &v);
+	struct json_object *v2 = json_object_object_get(H[ho], k);
+	ob_printf(&out, "= %d %ld %d same=%d", (int)f, uid_of(v), v == NULL, v2 == v);
+	if (nt > 3) { int hd = hidx(t[3]); H[hd] = v; Hset[hd] = 1; }
+	free(k);
+}
+static void cmd_olen(int nt, char **t) { int ho = hidx(t[1]); (void)nt; ob_printf(&out, "= %d", json_object_object_length(H[ho])); }
+
+/* OKEYS <hobj>  -> six iteration forms, each a comma-separated list of <keyhex>:<uid|n> */
+struct vis_ctx { struct obuf *o; struct json_object *root; int first; };
+static int vis_keys(json_object *jso, int flags, json_object *parent, const char *key, size_t *idx, void *arg)
+{
+	struct vis_ctx *c = (struct vis_ctx *)arg; (void)idx;
+	if (parent == c->root && !(flags & JSON_C_VISIT_SECOND) && key) { if (!c->first) ob_putc(c->o, ','); c->first = 0; ob_hex(c->o, key, strlen(key)); ob_printf(c->o, ":%ld", uid_of(jso)); }
+	if (jso != c->root && !(flags & JSON_C_VISIT_SECOND)) return JSON_C_VISIT_RETURN_SKIP;
+	return JSON_C_VISIT_RETURN_CONTINUE;
+}
+static void cmd_okeys(int nt, char **t)
+{
+	int ho = hidx(t[1]); struct json_object *o = H[ho]; int first; (void)nt;
+	ob_puts(&out, "= fe=");
+	first = 1; { json_object_object_foreach(o, k, v) { if (!first) ob_putc(&out, ','); first = 0; ob_hex(&out, k, strlen(k)); ob_printf(&out, ":%ld", uid_of(v)); } }
+	ob_puts(&out, " fc=");
+	first = 1; { struct json_object_iter it; json_object_object_foreachC(o, it) { if (!first) ob_putc(&out, ','); first = 0; ob_hex(&out, it.key, strlen(it.key)); ob_printf(&out, ":%ld", uid_of(it.val)); } }
+	ob_puts(&out, " it=");
+	first = 1; { struct json_object_iterator a = json_object_iter_begin(o), e = json_object_iter_end(o);
+		while (!json_object_iter_equal(&a, &e)) { const char *k = json_object_iter_peek_name(&a); if (!first) ob_putc(&out, ','); first = 0; ob_hex(&out, k, strlen(k)); ob_printf(&out, ":%ld", uid_of(json_object_iter_peek_value(&a))); json_object_iter_next(&a); } }
+	ob_puts(&out, " lh=");
+	first = 1; { struct lh_entry *e; lh_foreach(json_object_get_object(o), e) { const char *k = (const char *)lh_entry_k(e); if (!first) ob_putc(&out, ','); first = 0; ob_hex(&out, k, strlen(k)); ob_printf(&out, ":%ld", uid_of((struct json_object *)lh_entry_v(e))); } }
+	ob_puts(&out, " vi=");
+	{ struct vis_ctx c; c.o = &out; c.root = o; c.first = 1; json_c_visit(o, 0, vis_keys, &c); }
+	/* chain structure of the public table fields: head->next.. must be a simple chain of exactly count entries ending at tail; prev its mirror */
+	{ struct lh_table *tb = json_object_get_object(o); struct lh_entry *e, *last = NULL; int n = 0, ok = 1;
+	  for (e = tb->head; e && n <= tb->count + 1; e = e->next) { if (e->prev != last) ok = 0; last = e; n++; }
+	  if (n != tb->count || last != tb->tail) ok = 0;
+	  { int live = 0, freed = 0, i; for (i = 0; i < tb->size; i++) { if (tb->table[i].k == LH_FREED) freed++; else if (tb->table[i].k != LH_EMPTY) live++; }
+	    ob_printf(&out, " chain=%d size=%d count=%d live=%d tomb=%d", ok, tb->size, tb->count, live, freed); } }
+}
+/* OSER <hobj> -> key order as serialized: re-parse own PLAIN output and list keys */
+static void cmd_oser(int nt, char **t)
+{
+	int ho = hidx(t[1]); const char *s = json_object_to_json_string_ext(H[ho], 0); struct json_object *p; int first = 1; (void)nt;
+	p = s ? json_tokener_parse(s) : NULL;
+	ob_puts(&out, "= ");
+	if (p && json_object_is_type(p, json_type_object)) { json_object_object_foreach(p, k, v) { (void)v; if (!first) ob_putc(&out, ','); first = 0; ob_putc(&out, 'k'); ob_hex(&out, k, strlen(k)); } }
+	if (first) ob_putc(&out, '-');
+	json_object_put(p);
+}
+/* OITDEL <hobj> <mode>  delete the CURRENT key while iterating with json_object_object_foreach; mode bit i = delete the i-th visited key; -> visit sequence */
+static void cmd_oitdel(int nt, char **t)
+{
+	int ho = hidx(t[1]); unsigned long mask = (unsigned long)UL(t[2]); int i = 0, first = 1; (void)nt;
+	ob_puts(&out, "= ");
+	{ json_object_object_foreach(H[ho], k, v) {
+		if (!first) ob_putc(&out, ','); first = 0; ob_hex(&out, k, strlen(k)); ob_printf(&out, ":%ld", uid_of(v));
+		if (i < 64 && (mask >> i) & 1) json_object_object_del(H[ho], k);
+		i++; } }
+	if (first) ob_putc(&out, '-');
+	emit_dlog();
+}
+
+/* HASHFN <0 default | 1 perllike>;  HASH <key>... -> the library's hash of each key under the current function and seed */
+static void cmd_hashfn(int nt, char **t) { (void)nt; ob_printf(&out, "= %d", json_global_set_string_hash((int)L(t[1]))); }
+static void cmd_hash(int nt, char **t)
+{
+	struct json_object *o = json_object_new_object(); int i;
+	ob_puts(&out, "=");
+	for (i = 1; i < nt; i++) { char *k = keyarg(t[i]); ob_printf(&out, " %lu", lh_get_hash(json_object_get_object(o), k)); free(k); }
+	json_object_put(o);
+}
+
+/* ---- arrays ---- */
+static size_t SZ(const char *t) { if (!strcmp(t, "max")) return (size_t)-1; if (!strcmp(t, "max-1")) return (size_t)-2; return (size_t)strtoull(t, NULL, 0); }
+static void cmd_aadd(int nt, char **t) { int r; (void)nt; r = json_object_array_add(H[hidx(t[1])], H[hidx(t[2])]); ob_printf(&out, "= %d", r); emit_dlog(); }
+static void cmd_aput(int nt, char **t) { int r; (void)nt; r = json_object_array_put_idx(H[hidx(t[1])], SZ(t[2]), H[hidx(t[3])]); ob_printf(&out, "= %d", r); emit_dlog(); }
+static void cmd_ains(int nt, char **t) { int r; (void)nt; r = json_object_array_insert_idx(H[hidx(t[1])], SZ(t[2]), H[hidx(t[3])]); ob_printf(&out, "= %d", r); emit_dlog(); }
+static void cmd_adel(int nt, char **t) { int r; (void)nt; r = json_object_array_del_idx(H[hidx(t[1])], SZ(t[2]), SZ(t[3])); ob_printf(&out, "= %d", r); emit_dlog(); }
+static void cmd_ashrink(int nt, char **t) { int r; (void)nt; r = json_object_array_shrink(H[hidx(t[1])], (int)L(t[2])); ob_printf(&out, "= %d", r); emit_dlog(); }
+static void cmd_aget(int nt, char **t) { int hd = hidx(t[3]); struct json_object *v = json_object_array_get_idx(H[hidx(t[1])], SZ(t[2])); (void)nt; H[hd] = v; Hset[hd] = 1; ob_printf(&out, "= %ld %d", uid_of(v), v == NULL); }
+/* ADUMP <harr> -> = len=<n> cap=<size> e=<uid|n>,... (indices 0..len+2) */
+static void cmd_adump(int nt, char **t)
+{
+	struct json_object *a = H[hidx(t[1])]; size_t n = json_object_array_length(a), i; struct array_list *al = json_object_get_array(a); (void)nt;
+	ob_printf(&out, "= len=%zu cap=%zu e=", n, al->size);
+	for (i = 0; i < n + 3; i++) { struct json_object *v = json_object_array_get_idx(a, i); if (i) ob_putc(&out, ','); if (v) ob_printf(&out, "%ld", uid_of(v)); else ob_putc(&out, 'n'); }
+	ob_printf(&out, " far=%d", json_object_array_get_idx(a, (size_t)-1) == NULL && json_object_array_get_idx(a, n + 1000000) == NULL);
+}
+/* sort by uid, nulls first (comparator is NULL-safe) */
+static int cmp_uid(const void *a, const void *b)
+{
+	struct json_object *x = *(struct json_object *const *)a, *y = *(struct json_object *const *)b; long u = uid_of(x), v = uid_of(y);
+	return (u > v) - (u < v);
+}
+static void cmd_asort(int nt, char **t) { (void)nt; json_object_array_sort(H[hidx(t[1])], cmp_uid); ob_puts(&out, "= ok"); emit_dlog(); }
+/* ABS <harr> <hkey> -> = <found uid|-1|n> */
+static void cmd_abs(int nt, char **t)
+{
+	struct json_object *r = json_object_array_bsearch(H[hidx(t[2])], H[hidx(t[1])], cmp_uid); (void)nt;
+	ob_printf(&out, "= %ld", r ? uid_of(r) : -2L);
+}
+
+/* ---- strings (C11) ---- */
+/* SSTR <h> <hex> [lenoverride]   json_object_set_string_len from an exact-size block;  SSTRZ: json_object_set_string */
+static void cmd_sstr(int nt, char **t)
+{
+	int h = hidx(t[1]); size_t n; unsigned char *x = unhex(nt > 2 ? t[2] : "x", &n); char *e = exact_copy(x, n); int r;
+	int len = nt > 3 ? (int)LL(t[3]) : (int)n;
+	r = json_object_set_string_len(H[h], e, len);
+	free(e); free(x);
+	ob_printf(&out, "= %d", r);
+}
+static void cmd_sstrz(int nt, char **t)
+{
+	int h = hidx(t[1]); size_t n; unsigned char *x = unhex(nt > 2 ? t[2] : "x", &n); char *e = exact_copy(x, n + 1); int r;
+	e[n] = 0; r = json_object_set_string(H[h], e); free(e); free(x);
+	ob_printf(&out, "= %d", r);
+}
+/* GSTR <h> -> = <len> <hex bytes[0..len)> term=<byte at len> */
+static void cmd_gstr(int nt, char **t)
+{
+	struct json_object *o = H[hidx(t[1])]; int n = json_object_get_string_len(o); const char *p = json_object_get_string(o); (void)nt;
+	ob_printf(&out, "= %d x", n); ob_hex(&out, p, (size_t)n); ob_printf(&out, " term=%d", (int)(unsigned char)p[n]);
+}
+/* FAILNEXT <k>   fail the k-th allocation from now (0 = disarm) */
+static void cmd_failnext(int nt, char **t) { long k = L(t[1]); (void)nt; if (k > 0) vf_arm((unsigned long)k, 0); else vf_disarm(); ob_printf(&out, "= fired=%d", vf_faults_fired); }
+
+/* ---- equality / copy (C09) ---- */
+static void cmd_eq(int nt, char **t) { (void)nt; ob_printf(&out, "= %d", json_object_equal(H[hidx(t[1])], H[hidx(t[2])])); }
+static long copy_uid_next;
+static int tracking_shallow_copy(json_object *src, json_object *parent, const char *key, size_t index, json_object **dst)
+{
+	int rc = json_c_shallow_copy_default(src, parent, key, index, dst);
+	if (rc >= 1 && *dst && uid_of(src) > 0 && json_object_get_type(src) != json_type_double) { json_object_set_userdata(*dst, (void *)(intptr_t)(copy_uid_next++), del_cb); return 2; }
+	return rc;
+}
+/* DCOPY <hsrc> <hdst> <mode 0 default | 1 tracking> [first uid] -> = <rc> <errno> */
+static void cmd_dcopy(int nt, char **t)
+{
+	int hs = hidx(t[1]), hd = hidx(t[2]); int mode = (int)L(t[3]); struct json_object *d = NULL; int rc;
+	if (nt > 4) copy_uid_next = L(t[4]);
+	errno = 0;
+	rc = json_object_deep_copy(H[hs], &d, mode ? tracking_shallow_copy : NULL);
+	H[hd] = d; Hset[hd] = 1;
+	ob_printf(&out, "= %d %d", rc, errno); emit_dlog();
+}
+/* PTRS <h> -> all node pointers of the tree (sorted not needed) */
+static void ptrs_rec(struct json_object *o)
+{
+	if (!o) return;
+	ob_printf(&out, " %lx", (unsigned long)(uintptr_t)o);
+	if (json_object_is_type(o, json_type_array)) { size_t i, n = json_object_array_length(o); for (i = 0; i < n; i++) ptrs_rec(json_object_array_get_idx(o, i)); }
+	else if (json_object_is_type(o, json_type_object)) { json_object_object_foreach(o, k, v) { (void)k; ptrs_rec(v); } }
+}
+static void cmd_ptrs(int nt, char **t) { (void)nt; ob_puts(&out, "="); ptrs_rec(H[hidx(t[1])]); }
+/* NAV <hroot> <hdst> <step>...   step: k<hex> or i<idx>; borrowed pointer */
+static void cmd_nav(int nt, char **t)
+{
+	struct json_object *o = H[hidx(t[1])]; int i, hd = hidx(t[2]);
+	for (i = 3; i < nt && o; i++) {
+		if (t[i][0] == 'k') { char *k = keyarg(t[i]); struct json_object *v = NULL; json_object_object_get_ex(o, k, &v); free(k); o = v; }
+		else o = json_object_array_get_idx(o, (size_t)strtoull(t[i] + 1, NULL, 10));
+	}
+	H[hd] = o; Hset[hd] = 1;
+	ob_printf(&out, "= %d", o != NULL);
+}
+
 /* PUT <h> -> = <ret> del=..   (handle is cleared) */
 static void cmd_put(int nt, char **t)
 {
@@ -373,6 +606,37 @@ static void dispatch(int nt, char **t)
 	else if (!strcmp(c, "D")) cmd_dump(nt, t);
 	else if (!strcmp(c, "S")) cmd_ser(nt, t);
 	else if (!strcmp(c, "S64")) cmd_ser64(nt, t);
+	else if (!strcmp(c, "NEW")) cmd_new(nt, t);
+	else if (!strcmp(c, "UD")) cmd_ud(nt, t);
+	else if (!strcmp(c, "SS")) cmd_ss(nt, t);
+	else if (!strcmp(c, "GET")) cmd_get(nt, t);
+	else if (!strcmp(c, "ALIAS")) cmd_alias(nt, t);
+	else if (!strcmp(c, "OADD")) cmd_oadd(nt, t);
+	else if (!strcmp(c, "ODEL")) cmd_odel(nt, t);
+	else if (!strcmp(c, "OGET")) cmd_oget(nt, t);
+	else if (!strcmp(c, "OLEN")) cmd_olen(nt, t);
+	else if (!strcmp(c, "OKEYS")) cmd_okeys(nt, t);
+	else if (!strcmp(c, "OSER")) cmd_oser(nt, t);
+	else if (!strcmp(c, "OITDEL")) cmd_oitdel(nt, t);
+	else if (!strcmp(c, "HASHFN")) cmd_hashfn(nt, t);
+	else if (!strcmp(c, "HASH")) cmd_hash(nt, t);
+	else if (!strcmp(c, "AADD")) cmd_aadd(nt, t);
+	else if (!strcmp(c, "APUT")) cmd_aput(nt, t);
+	else if (!strcmp(c, "AINS")) cmd_ains(nt, t);
+	else if (!strcmp(c, "ADEL")) cmd_adel(nt, t);
+	else if (!strcmp(c, "ASHRINK")) cmd_ashrink(nt, t);
+	else if (!strcmp(c, "AGET")) cmd_aget(nt, t);
+	else if (!strcmp(c, "ADUMP")) cmd_adump(nt, t);
+	else if (!strcmp(c, "ASORT")) cmd_asort(nt, t);
+	else if (!strcmp(c, "ABS")) cmd_abs(nt, t);
+	else if (!strcmp(c, "SSTR")) cmd_sstr(nt, t);
+	else if (!strcmp(c, "SSTRZ")) cmd_sstrz(nt, t);
+	else if (!strcmp(c, "GSTR")) cmd_gstr(nt, t);
+	else if (!strcmp(c, "FAILNEXT")) cmd_failnext(nt, t);
+	else if (!strcmp(c, "EQ")) cmd_eq(nt, t);
+	else if (!strcmp(c, "DCOPY")) cmd_dcopy(nt, t);
+	else if (!strcmp(c, "PTRS")) cmd_ptrs(nt, t);
+	else if (!strcmp(c, "NAV")) cmd_nav(nt, t);
 	else if (!strcmp(c, "PB")) cmd_pb(nt, t);
 	else if (!strcmp(c, "NUM")) cmd_num(nt, t);
 	else if (!strcmp(c, "SET")) cmd_set(nt, t);
@@ -398,6 +662,7 @@ int main(int argc, char **argv)
 			for (i = 0; i < NT; i++) if (T[i]) { json_tokener_free(T[i]); T[i] = NULL; }
 			release_all();
 			dlog_n = 0;
+			vf_disarm();
 			base_live = vf_live_blocks;
 			base_serial = vf_next_serial();
 			vf_bad_frees = 0;
